@@ -45,9 +45,11 @@ def site_what(site):
     return f"{site[0]}.{site[1]} is accessed in {site[2]} outside the protection its policy entry demands (recorded exception)"
 
 
-REGRESSION_SCENARIOS = ["batcherr", "connoffset", "readerversion", "readergroup", "writergrow", "recordset"]
+REGRESSION_SCENARIOS = ["batcherr", "connoffset", "readerversion", "readergroup", "writergrow", "recordset",
+                        "transporttls", "dialertls", "conncompress"]
 FOCUS_SCENARIO = {"Batch.err": "batcherr", "Conn.offset": "connoffset", "Reader.version": "readerversion",
-                  "$kafka.partitionsCache": "writergrow", "snappy.writer.xerialWriter": "recordset",
+                  "$kafka.partitionsCache": "writergrow", "connPool.tls": "transporttls", "Transport.TLS": "transporttls",
+                  "Dialer.TLS": "dialertls", "$kafka.bufferPool": "conncompress", "snappy.writer.xerialWriter": "recordset",
                   "Reader.cancel": "readergroup"}
 
 
@@ -326,7 +328,12 @@ def correspondence(ctx):
         reports += rp
         problems += pb
     for p in problems:
-        failures.append(dict(layer="correspondence", what="race harness problem: " + p[:200], detail=p, input=None))
+        if "MISMATCH" in p or "PANIC" in p:
+            # the programs also evaluate functional predicates (round trips give the data back, the SNI
+            # presented to a broker is that broker's host, the caller's tls.Config is untouched, ...)
+            failures.append(dict(layer="property", what="a concurrent client program observed a wrong result: " + p[:200], detail=p, input=None))
+        else:
+            failures.append(dict(layer="correspondence", what="race harness problem: " + p[:200], detail=p, input=None))
 
     distinct, confirmed, unattributed = {}, {}, []
     for rep in reports:
@@ -355,7 +362,7 @@ def correspondence(ctx):
         failures.append(dict(layer="property", key=key, what=site_what(s), detail=detail, input=inp))
     for rep in unattributed[:5]:
         failures.append(dict(layer="property", key=None,
-                             what="race detector report in /repo not explained by any known exception: the static discipline passes there, so the static model (or the policy) is unsound at this site",
+                             what="race detector report in /repo not explained by any known exception (if the static discipline passes, the static model or the policy is unsound at this site)",
                              detail=rep["text"],
                              input=dict(scenario=rep["scenario"], seed=rep["seed"], dur=rep["dur"], focus=rep["focus"], key=None, report=rep["text"])))
 
